@@ -40,8 +40,27 @@ package har
 //@   ensures result1 == nil ==> lastBodyRead == result0
 //@ func headers
 //@   trusted
+// cookies: one HAR cookie per cookie, in order; the ISO 8601 expiry text of an entry is computed from THAT cookie's
+// expiry in the same iteration (empty when the cookie has none) - never carried over from an earlier cookie.
+//@ ghost var ckFormatted string
+//@ ghost var ckNFormat int
+//@ ghost var ckN0 int
+//@ extern func (time.Time).Format
+//@   modifies ckFormatted, ckNFormat
+//@   ensures ckFormatted == result && ckNFormat == old(ckNFormat) + 1
+//@ extern func (*http.Request).Cookies
+//@   ensures forall i int :: 0 <= i && i < len(result) ==> result[i] != nil
+//@ extern func (*http.Response).Cookies
+//@   ensures forall i int :: 0 <= i && i < len(result) ==> result[i] != nil
 //@ func cookies
-//@   trusted
+//@   serves C16
+//@   requires forall i int :: 0 <= i && i < len(cs) ==> cs[i] != nil
+//@   modifies ckFormatted, ckNFormat, ckN0
+//@   noframe
+//@   loop 0 invariant len(hcs) == rangeindex + 1 && -1 <= rangeindex && rangeindex < len(cs) || len(cs) == 0 && len(hcs) == 0
+//@   at call 0 of IsZero before set ckN0 = ckNFormat
+//@   at call 0 of append before assert[expiry-text-is-computed-from-this-cookie] (expires == "" && ckNFormat == ckN0) || (expires == ckFormatted && ckNFormat == ckN0 + 1)
+//@   ensures[one-entry-per-cookie] len(result) == len(cs)
 //@ extern func proxyutil.RequestHeader
 //@   ensures result != nil
 //@ extern func proxyutil.ResponseHeader
